@@ -359,12 +359,13 @@ def remote_fault_case(kind, op, fault, count, size_i, skip):
             return True, 'n/a'
     elif fault == 'drop' and (op not in ('download', 'download_stream') or size <= 16):      # the fake drops after one 16-byte piece
         return True, 'n/a'
-    status = {'503': 503, '500': 500, '429': 429}.get(fault, 503)
+    status = {'503': 503, '500': 500, '429': 429, '401': 401}.get(fault, 503)
     fkind = {'connect': 'connect', 'drop': 'drop'}.get(fault, 'status')
     plan = fakes.FaultPlan()
-    if fault != '401':
+    if True:
         plan = fakes.FaultPlan(kind=fkind, status=status, match=is_op_request, skip=skip, count=count,
-                               headers={'retry-after': '0'} if fault == '429' else {}, drop_after=1)
+                               headers={'retry-after': '0'} if fault == '429' else {}, drop_after=1,
+                               body_pieces=[10 ** 6, 1][skip] if op == 'upload_stream' else 10 ** 6)
     raw = CountingStream(data)
     sink = io.BytesIO()
     result = {}
@@ -373,8 +374,6 @@ def remote_fault_case(kind, op, fault, count, size_i, skip):
         if kind == 'b2':
             await be.exists('warm-up')           # authorise and find the bucket first, then arm the faults
         svc.plan = plan
-        if fault == '401':
-            svc.expire_next = count
         if op == 'upload':
             await be.upload(name, data)
         elif op == 'upload_stream':
@@ -401,11 +400,13 @@ def remote_fault_case(kind, op, fault, count, size_i, skip):
     except Exception as e:
         raised = e
     nreq = len(svc.requests) - n0
-    used = plan.hits if fault != '401' else count - svc.expire_next
+    if svc.short_bodies:
+        return False, f'{kind} {op}: a request declared {svc.short_bodies[0][2]} bytes but sent {svc.short_bodies[0][1]}: the payload was not re-read from its start after a fault'
+    used = plan.hits
     if isinstance(raised, RecursionError):
         return False, f'{kind} {op}: {fault} x{count}: unbounded re-authentication recursion after {nreq} requests'
     INF = 10 ** 9
-    if count >= INF and fault != '401' and used > 0:
+    if count >= INF and used > 0:
         # the fault never goes away: a bounded number of attempts, then an error; nothing wrong left behind
         if raised is None:
             return False, f'{kind} {op}: permanent {fault} fault but the operation reported success'
